@@ -64,6 +64,13 @@ def replayable(who, n, v):
     return None
 
 
+def replayable_oneshot(who, n, v):
+    """One-shot runs: a skipped build is replayable (its state is recorded by a warm-up invocation)."""
+    if 'env_unchanged' in n:
+        return None
+    return replayable(who, n, v)
+
+
 class Query:
     def __init__(self, name, bad, assume=(), confirm=None, role=None, desc=''):
         self.name, self.bad, self.assume, self.confirm, self.desc, self.role = name, bad, list(assume), confirm, desc, role
@@ -129,6 +136,8 @@ def build_queries(prop, sysm, u, mon, tier='quick'):
             qs.append(Query('watch_keeps_running_after_failure', z3.And(nosig, S['main.phase'] != 0), [], confirm='watch_exit'))
     elif prop == 'C11':
         qs.append(Query('single_instance', G['double_svc'], [], confirm='double_svc'))
+        qs.append(Query('dependency_services_are_running_when_a_build_starts', G['svc_down'], [], confirm='svc_down',
+                        desc='a build script is spawned (outside shutdown) while a service it depends on, directly or through aggregates, has no running instance'))
         if not sysm.watch:
             base = nf + nohang + [nosig]
             qs.append(Query('stays_alive_iff_service_requested', z3.And(final_quiet, z3.Not(z3.If(svc_root, S['main.phase'] == 1, S['main.phase'] == 4))), base, confirm='alive'))
@@ -280,6 +289,28 @@ def confirm_native(kind, case, tr):
             elif e[0] == 'reap':
                 live.discard(e[1])
         return False
+    if kind == 'svc_down':
+        deps = {int(k): v for k, v in case['deps'].items()}
+        kinds = case['kinds']
+        live = set()
+
+        def up(d):
+            if kinds[d] == 'service':
+                return d in live
+            if kinds[d] == 'build':
+                return True
+            return all(up(x) for x in deps.get(d, []))
+        for e in evs:
+            if e[0] in ('signal', 'main_done'):
+                break
+            if e[0] == 'spawn':
+                if kinds[e[1]] == 'service':
+                    live.add(e[1])
+                elif not all(up(d) for d in deps.get(e[1], [])):
+                    return True
+            elif e[0] in ('kill', 'reap') and kinds[e[1]] == 'service':
+                live.discard(e[1])
+        return False
     if kind == 'alive':
         return True   # outcome compared by caller through rc/stuck; any divergence from the spec counts
     if kind == 'leak':
@@ -349,7 +380,7 @@ def run_case(arg):
             if r == z3.sat:
                 # prefer a counterexample the native replay can follow exactly
                 s.push()
-                for c in oracle_constraints(u, replayable):
+                for c in oracle_constraints(u, replayable if watch else replayable_oneshot):
                     s.add(c)
                 r2 = s.check()
                 if r2 == z3.sat:
